@@ -20,17 +20,20 @@ import (
 )
 
 var (
-	lifeMu    sync.RWMutex
-	lifeConns = map[*g.Conn]*lifeSess{}
-	lifeOnce  sync.Once
+	lifeMu             sync.RWMutex
+	connectMu          sync.Mutex       // serialises connectLife; never taken by a hook
+	lifePending        *lifeSess        // the session whose connection is being created (under lifeMu)
+	lifeBefore         map[*g.Conn]bool // the connections that existed before it
+	lifeConns          = map[*g.Conn]*lifeSess{}
+	lifeOnce           sync.Once
 	bFl, bWk, bRs, bSv = g.VerifReqBits()
 )
 
 type plan struct {
-	gate    bool // the handler parks until released
-	async   bool // the handler returns without answering; the answer comes from another goroutine on release
-	answers int  // calls of Respond (default 1)
-	honour  bool // FlushOp calls req.Flush() on this request
+	gate    bool   // the handler parks until released
+	async   bool   // the handler returns without answering; the answer comes from another goroutine on release
+	answers int    // calls of Respond (default 1)
+	honour  bool   // FlushOp calls req.Flush() on this request
 	overlap string // answer a second time while the first answer is parked at this point of Respond
 }
 
@@ -69,23 +72,23 @@ type park struct {
 }
 
 type lifeSess struct {
-	srv   *g.Srv
-	c     net.Conn
-	conn  *g.Conn
-	ops   *lifeOps
-	cap   int
-	mu    sync.Mutex
-	toks  []string
-	rids  map[*g.SrvReq]int
-	reqs  []*lreq
-	plans map[int]plan // by position in the order of arrival
-	relset map[int]bool // released before they arrived
-	parks []*park
-	takes []int
-	clock int64
-	fr    []wframe
-	frc   chan int
-	rdone chan bool
+	srv       *g.Srv
+	c         net.Conn
+	conn      *g.Conn
+	ops       *lifeOps
+	cap       int
+	mu        sync.Mutex
+	toks      []string
+	rids      map[*g.SrvReq]int
+	reqs      []*lreq
+	plans     map[int]plan // by position in the order of arrival
+	relset    map[int]bool // released before they arrived
+	parks     []*park
+	takes     []int
+	clock     int64
+	fr        []wframe
+	frc       chan int
+	rdone     chan bool
 	closed    int32 // ConnClosed calls
 	destroyed []uint32
 	perturb   func(point string)
@@ -140,7 +143,18 @@ func lifeHook(point string, args []interface{}) {
 	}
 	lifeMu.RLock()
 	s := lifeConns[cn]
+	pend, bef := lifePending, lifeBefore
 	lifeMu.RUnlock()
+	if s == nil && pend != nil && cn.Srv == pend.srv && !bef[cn] {
+		// the connection connectLife is creating right now: adopt it at its first logged point
+		lifeMu.Lock()
+		if s = lifeConns[cn]; s == nil && lifePending == pend {
+			lifeConns[cn] = pend
+			pend.conn = cn
+			s = pend
+		}
+		lifeMu.Unlock()
+	}
 	if s == nil {
 		return
 	}
@@ -491,20 +505,31 @@ func connectLife(srv *g.Srv, o *lifeOps, maxpend int) *lifeSess {
 		frc: make(chan int, 4096), rdone: make(chan bool)}
 	a, b := net.Pipe()
 	s.c = b
-	// register before the receive loop can log anything
+	// The new connection must be known before its receive loop logs anything, but no harness lock
+	// that a logging point takes may be held across a call into the library (a point is logged
+	// with the connection's lock held, and Process takes the server's lock before the
+	// connection's): connects are serialised by connectMu, which no hook takes, and the hook
+	// itself adopts the one connection of this server that did not exist before.
+	connectMu.Lock()
 	before := map[*g.Conn]bool{}
 	for _, cn := range g.VerifConns(srv) {
 		before[cn] = true
 	}
 	lifeMu.Lock()
+	lifePending, lifeBefore = s, before
+	lifeMu.Unlock()
 	srv.NewConn(pconn{a})
-	for _, cn := range g.VerifConns(srv) {
-		if !before[cn] {
+	conns := g.VerifConns(srv)
+	lifeMu.Lock()
+	for _, cn := range conns {
+		if !before[cn] && lifeConns[cn] == nil {
 			s.conn = cn
 			lifeConns[cn] = s
 		}
 	}
+	lifePending, lifeBefore = nil, nil
 	lifeMu.Unlock()
+	connectMu.Unlock()
 	go s.reader()
 	return s
 }
